@@ -966,8 +966,9 @@ def remove(
                 progress.flash(f'Removed {spec}{extra}\n')
 
     finally:
-        progress.close()
+        # uninstall first: close() is the caller's code and may raise
         conn.set_progress_handler(None, 0)
+        progress.close()
 
 
 def _find_all_extensions(rowid: int) -> list[tuple[int, str]]:
